@@ -504,6 +504,8 @@ def c15_require(agg):
     need = []
     if st.get("accepted", 0) < 500 or st.get("refused", 0) < 300:
         need.append("fewer than 500 accepted or 300 refused sends")
+    if st.get("sends_with_refused_attempts", 0) < 200 or st.get("accepted_after_refused_attempt", 0) < 50:
+        need.append("fewer than 200 sends with refused attempts (50 accepted)")
     return need
 
 
@@ -700,6 +702,8 @@ def c19_post(agg, results, workdir, inconclusive):
     agg["stats"]["trace_disagreements"] = disagreements
     if compared == 0:
         inconclusive.append("no program was executed on all three builds")
+    if agg["stats"].get("set_member_bursts", 0) < 50:
+        inconclusive.append("fewer than 50 bursts on receiver-set members")
 
 
 HOOKS = {
